@@ -25,15 +25,18 @@ Inductive wop :=
 | WBeforeSelf (ns : list A)
 | WAfterSelf (ns : list A).
 
-(* for node in reversed(nodes): self.nodes.insert(index, node) *)
-Definition ins_ops (i : Z) (ns : list A) : list (@lop A) := map (LInsert i) (rev ns).
+(* Wikicode.insert: the index is resolved once (as list.insert would), then
+   for offset, node in enumerate(nodes): self.nodes.insert(index + offset, node) *)
+Fixpoint ins_at (idx : Z) (ns : list A) : list (@lop A) :=
+  match ns with [] => [] | n :: t => LInsert idx n :: ins_at (idx + 1) t end.
+Definition ins_ops (len i : Z) (ns : list A) : list (@lop A) := ins_at (adj len i) ns.
 Definition pop_ops (i : Z) (n : nat) : list (@lop A) := repeat (LPop (Some i)) n.
 
 (* The list operations one Wikicode call performs on node list L (L = current content). *)
 Definition wc_ops (L : list A) (w : wop) : res (list (@lop A)) :=
   let len := zlen L in
   match w with
-  | WInsert i ns => Ok (ins_ops i ns)
+  | WInsert i ns => Ok (ins_ops len i ns)
   | WAppend ns => Ok (map LAppend ns)
   | WSet i ns =>
       if (1 <? zlen ns) then Exn ValueError
@@ -45,15 +48,15 @@ Definition wc_ops (L : list A) (w : wop) : res (list (@lop A)) :=
   | WRemoveNode x =>
       match find_index eqb x L 0 with None => Exn ValueError | Some j => Ok (pop_ops j 1) end
   | WReplaceNode x ns =>
-      match find_index eqb x L 0 with None => Exn ValueError | Some j => Ok (pop_ops j 1 ++ ins_ops j ns) end
+      match find_index eqb x L 0 with None => Exn ValueError | Some j => Ok (pop_ops j 1 ++ ins_ops (len - 1) j ns) end
   | WBeforeNode x ns =>
-      match find_index eqb x L 0 with None => Exn ValueError | Some j => Ok (ins_ops j ns) end
+      match find_index eqb x L 0 with None => Exn ValueError | Some j => Ok (ins_ops len j ns) end
   | WAfterNode x ns =>
-      match find_index eqb x L 0 with None => Exn ValueError | Some j => Ok (ins_ops (j + 1) ns) end
+      match find_index eqb x L 0 with None => Exn ValueError | Some j => Ok (ins_ops len (j + 1) ns) end
   | WRemoveSelf => Ok (pop_ops 0 (length L))
-  | WReplaceSelf ns => Ok (pop_ops 0 (length L) ++ ins_ops 0 ns)
-  | WBeforeSelf ns => Ok (ins_ops 0 ns)
-  | WAfterSelf ns => Ok (ins_ops len ns)
+  | WReplaceSelf ns => Ok (pop_ops 0 (length L) ++ ins_ops 0 0 ns)
+  | WBeforeSelf ns => Ok (ins_ops len 0 ns)
+  | WAfterSelf ns => Ok (ins_ops len len ns)
   end.
 
 Fixpoint multi_step (st : @sl A) (t : target) (ops : list (@lop A)) : res (@sl A) :=
